@@ -42,7 +42,10 @@ class C17(FsProp):
                 {"module": "EditFs.tla", "cfg": "MC_EditFs_code.cfg", "expect": "fail", "workers": 2,
                  "what": "remove-then-write (pinned commit) must violate NeverLost"},
                 {"module": "EditFs.tla", "cfg": "MC_EditFs_notrunc.cfg", "expect": "fail", "workers": 2,
-                 "what": "temporary file opened without truncation: unsafe after an interrupted edit (Restart)"}]
+                 "what": "temporary file opened without truncation: unsafe after an interrupted edit (Restart)"},
+                {"module": "EditFs.tla", "cfg": "MC_EditFs_inwith.cfg", "expect": "fail", "workers": 2,
+                 "what": "os.replace while the temporary file is still open: the rename carries an empty file to M "
+                         "(open handles follow renames in FsModel)"}]
 
     def cases(self, tier, rng):
         cl = ["C17.safe", "C17.error", "C17.prefix", "C17.works", "X17.fsmodel"]
